@@ -393,7 +393,7 @@ def load_findings(pid):
             line = line.strip()
             if line and not line.startswith("#"):
                 d = json.loads(line)
-                if d.get("property") == pid:
+                if d.get("property") == pid or (pid in d.get("also", []) and d.get("status") == "open"):
                     out.append(d)
     return out
 
